@@ -92,6 +92,13 @@ NOTES = {
     "C05_8": ("only no-failing-input-found at first run (754 correspondence mismatches: an extra empty block per removed log): the scripted node gave removed logs the canonical block hash",
               "harness/c05: every second removed log carries the hash of the block it was removed from (an orphan hash), as a real node reports it; "
               "the unchanged downloader drops removed logs before it looks at them, so nothing else moves"),
+    "C16_7": ("MISSED at first run: the largest jump of the tip between two polls was exactly 5000 blocks, the change caps a query at 5000 blocks and skips the rest",
+              "harness/c16: two fixed histories whose tip jumps by 5001 blocks under a running downloader and by 7000 blocks at a restart, roots and a removal "
+              "in every thousand of the gap"),
+    "C16_8": ("MISSED by C16 at first run (reported by C07's GER-store part, which injects storage faults): the C16 histories had no storage fault",
+              "harness/c16: cases with Faults (every fixed history that removes a root, and every eighth random one): the first attempt to process each "
+              "event-carrying block meets an aborting insert / delete of imported_global_exit_root (SQL trigger armed around that one attempt - no "
+              "timers), the driver's retry finds the store healthy; a processor that swallows the failure has committed the block without its event"),
     "C17_5": ("MISSED by C17 at first run (C02 reported a broken correspondence, no failing input): the cut was only driven through limitCertSize itself",
               "harness/c17 kind 'flow': every limit case whose certificate the flow can build (first block >= 1, a first certificate is no retry) is "
               "also run through the real NewBaseFlow(...).GetCertificateBuildParamsInternal with stub storage / L2 syncer, and compared with the same "
